@@ -70,6 +70,32 @@ ShortestUpPaths(par, t, a) ==
 Sorted(S) == SetToSortSeq(S, LAMBDA x, y : x < y)
 
 
+(* The observable projection of an ontology given by its direct facts:     *)
+(* par (direct parents per term) and, per annotation kind, a function      *)
+(* record id -> [name, hpos (direct terms)].  Defined semantically:        *)
+(* ancestors = transitive closure, a term is linked to a record iff the    *)
+(* record is directly annotated to the term or one of its descendants.     *)
+LinkedPure(par, r, t) == {x \in DOMAIN r : DescSelf(par, t) \cap r[x].hpos # {}}
+
+ProjTermPure(par, rg, ro, rr, t) ==
+  [ id       |-> t,
+    parents  |-> Sorted(par[t]),
+    children |-> Sorted(ChildrenOf(par, t)),
+    allp     |-> Sorted(Anc(par, t)),
+    gene     |-> Sorted(LinkedPure(par, rg, t)),
+    omim     |-> Sorted(LinkedPure(par, ro, t)),
+    orpha    |-> Sorted(LinkedPure(par, rr, t)) ]
+
+ProjRecsPure(r) ==
+  LET ids == Sorted(DOMAIN r) IN
+  [i \in 1..Len(ids) |-> [id |-> ids[i], name |-> r[ids[i]].name, hpos |-> Sorted(r[ids[i]].hpos)]]
+
+ProjPure(order, par, rg, ro, rr) ==
+  [ terms |-> [i \in 1..Len(order) |-> ProjTermPure(par, rg, ro, rr, order[i])],
+    gene  |-> ProjRecsPure(rg),
+    omim  |-> ProjRecsPure(ro),
+    orpha |-> ProjRecsPure(rr) ]
+
 (* All duplicate-free sequences over subsets of S (arena orders).          *)
 Arrangements(S) == UNION {{s \in [1..Cardinality(U) -> U] : Range(s) = U} : U \in SUBSET S}
 
